@@ -94,7 +94,7 @@ def replay_deps(label, inputs):
     import types
     from django_evolution.mutations.base import BaseMutation
     from django_evolution.utils import evolutions as E
-    from django_evolution.utils.apps import get_app
+    from django_evolution.compat.apps import get_app
 
     class Gen(BaseMutation):
         def generate_dependencies(self, app_label, **kwargs):
